@@ -181,8 +181,15 @@ def run_kinds(acc, i, n, tier):
         from clastic import Application as _App
         _other = _App([('/x', lambda: None)])
         _other.serve(_jk_just_testing=True, use_meta=False, use_static=False)
-        for variant in ('plain', 'gzip', 'cache', 'debug', 'gzip+cache'):
-            app = build_scenario(tmpdir, variant)
+        for variant in ('plain', 'gzip', 'cache', 'debug', 'gzip+cache', 'plain@2**32', 'plain@2**64'):
+            if '@' in variant:
+                # a long-lived process: the process-wide request counter has passed 2**32 / 2**64
+                import clastic.application as _ca
+                _ca._REQ_ID_ITER = itertools.count(eval(variant.split('@')[1]) - 40)
+                variant_app = 'plain'
+            else:
+                variant_app = variant
+            app = build_scenario(tmpdir, variant_app)
             for path in PATHS:
                 for method in METHODS:
                     for hname, hdrs in header_sets():
@@ -311,7 +318,9 @@ def run_wrappers(acc, i, n, tier):
             for embedded in (False, True):
                 if not embedded and inner_s:
                     continue
-                for style in ('constructor', 'add-later'):
+                for style in ('constructor', 'add-later', 'routeless'):
+                    if style == 'routeless' and (embedded or inner_s):
+                        continue      # an application without any route: its 404s still pass through every wrapper
                     k += 1
                     if k % n != i:
                         continue
@@ -326,7 +335,10 @@ def run_wrappers(acc, i, n, tier):
                             path = '/e/x'
                         else:
                             entry, path = route, '/x'
-                        if style == 'constructor':
+                        if style == 'routeless':
+                            app = Application(middlewares=[CLS[t](tag) for t, tag in outer])
+                            path = '/nothing'
+                        elif style == 'constructor':
                             app = Application([entry], middlewares=[CLS[t](tag) for t, tag in outer])
                         else:
                             app = Application(middlewares=[CLS[t](tag) for t, tag in outer])
@@ -345,6 +357,12 @@ def run_wrappers(acc, i, n, tier):
                     if k % 301 == i:
                         acc.sample(dict(case, wrappers_ran=got))
                     acc.outcome('wrappers|%s|%s|%d' % (style, 'embedded' if embedded else 'flat', len(want)))
+                    if style == 'routeless':
+                        if res.code != 404:
+                            acc.violation('C13:wrappers-response', 'route-less application answered %s' % res.status, case)
+                        elif got != want:
+                            acc.violation('C13:wrapper-order:routeless', 'wrappers ran %r, expected %r; %r' % (got, want, case), case)
+                        continue
                     if res.code != 200 or res.body != b'x':
                         acc.violation('C13:wrappers-response', 'wrapped application answered %s %r' % (res.status, res.body), case)
                     elif got != want:
